@@ -405,6 +405,7 @@ func main() {
 	b.WriteString("/-- addHandler: the expression passed as argument of the Cluster.Unpin RPC (which takes a *api.Pin) -/\n")
 	b.WriteString("def addUnpinArg : String := " + lstr(addUnpinArg) + "\n\n")
 	b.WriteString(relaySetup(fset, f))
+	b.WriteString(flowSection(fset, f))
 	b.WriteString("end CV.Gen.C12\n")
 	fmt.Print(b.String())
 }
